@@ -96,11 +96,19 @@ def run_shard(params):
             p, b = pos[name]
             return bool(data[p] >> b & 1)
 
+        nhist = 0
         for ln in range(1, L + 1):
             for f in firsts:
                 for rest in itertools.product(allsteps, repeat=ln - 1):
                     hist = (f,) + rest
-                    # ---- fresh device state
+                    # ---- fresh device state; every few histories the
+                    # group gets a new frame buffer, as a restarted group
+                    # does (SyncGroup.start allocates current_data anew)
+                    nhist += 1
+                    if nhist % 5 == 0:
+                        sg.current_data = bytearray(len(data))
+                        data = sg.current_data
+                        res.count("histories_after_a_buffer_change")
                     data[:] = bytes(len(data))
                     valve.__dict__.pop("target", None)
                     valve.__dict__.pop("error", None)
